@@ -24,6 +24,8 @@ import (
 	"time"
 
 	"ssvharness/internal/common"
+
+	"github.com/database64128/shadowsocks-go/ss2022"
 )
 
 const f9Key = "F9:stop-under-flood-waits-nat-timeout"
@@ -45,8 +47,8 @@ func runOne(sc Scenario) runOut {
 	}
 	js, _ := json.Marshal(sc)
 	limit := time.Duration(sc.NatMs)*time.Millisecond*2 + 30*time.Second
-	if limit > 60*time.Second && sc.Kind != "evict" {
-		limit = 60 * time.Second
+	if limit > 120*time.Second && sc.Kind != "evict" {
+		limit = 120 * time.Second
 	}
 	ctx, cancel := context.WithTimeout(context.Background(), limit)
 	defer cancel()
@@ -354,7 +356,7 @@ var sessVariants = []variant{{"ss2022", "no"}, {"ss2022", "sendmmsg"}}
 
 func natMsFor(v variant, kind string, r *common.Rng) int {
 	if v.server == "ss2022" {
-		return 60000 // the replay window is the minimum NAT timeout of ss2022
+		return int(ss2022.ReplayWindowDuration / time.Millisecond) // the replay window is the minimum NAT timeout of ss2022
 	}
 	if kind == "evict" {
 		return r.Range(10, 16) * 100
@@ -424,8 +426,8 @@ func generate(r *common.Rng, n int, search bool, thorough bool) []Scenario {
 	}
 	if thorough {
 		// one real ss2022 eviction (its minimum NAT timeout is the replay window)
-		add(Scenario{Kind: "evict", Server: "ss2022", Batch: "no", NatMs: 60000, Echo: true})
-		add(Scenario{Kind: "evict", Server: "ss2022", Batch: "sendmmsg", NatMs: 60000, Echo: true})
+		add(Scenario{Kind: "evict", Server: "ss2022", Batch: "no", NatMs: int(ss2022.ReplayWindowDuration / time.Millisecond), Echo: true})
+		add(Scenario{Kind: "evict", Server: "ss2022", Batch: "sendmmsg", NatMs: int(ss2022.ReplayWindowDuration / time.Millisecond), Echo: true})
 	}
 	return scs
 }
@@ -483,8 +485,8 @@ func main() {
 				defer wg.Done()
 				defer func() { <-sem }()
 				out := runOne(sc)
-				if out.Crash == "" && out.Res.Err != "" {
-					out = runOne(sc) // harness-level hiccup: once more
+				if (out.Crash == "" && out.Res.Err != "") || out.Timeout {
+					out = runOne(sc) // harness-level hiccup (or a child starved by the machine): once more; a real wedge persists
 				}
 				if er := e.evaluate(out); er != nil {
 					emu.Lock()
@@ -501,7 +503,7 @@ func main() {
 		rep.Write(o.Out)
 		os.Exit(3)
 	}
-	if rep.Distribution["harness-error"] > len(scs)/4 {
+	if rep.Distribution["harness-error"] > len(scs)/10 {
 		rep.Note("too many harness-level errors (%d of %d runs)", rep.Distribution["harness-error"], len(scs))
 		rep.Write(o.Out)
 		os.Exit(3)
